@@ -97,6 +97,12 @@ fn main() {
                 std::process::exit(2)
             }
         };
+        if let Some(net) = prop.part_network(&rf.part) {
+            if net != network {
+                let st = std::process::Command::new(std::env::current_exe().unwrap()).args(&args[1..]).env("VERIF_NETWORK", net).status();
+                std::process::exit(st.ok().and_then(|s| s.code()).unwrap_or(2));
+            }
+        }
         let code = match prop.replay(&rf.part, &rf.case) {
             Ok(_) => {
                 println!("replay {}: property held", path.display());
@@ -140,7 +146,24 @@ fn main() {
         reg += 1;
         let rel = path.strip_prefix(verif_root()).map(|p| p.to_path_buf()).unwrap_or(path.clone());
         let listed = known.iter().find(|k| k.replay.ends_with(&*rel.to_string_lossy()) || rel.to_string_lossy().ends_with(&k.replay));
-        match prop.replay(&rf.part, &rf.case) {
+        let result = match prop.part_network(&rf.part) {
+            Some(net) if net != network => {
+                // CONFIG is process-global: replay in a child configured for that network
+                let out = std::process::Command::new(std::env::current_exe().unwrap()).arg(&id).arg("--replay").arg(&path).env("VERIF_NETWORK", net).output();
+                match out {
+                    Ok(o) if o.status.code() == Some(0) => Ok(CaseInfo::default()),
+                    Ok(o) => {
+                        let text = String::from_utf8_lossy(&o.stdout).to_string();
+                        let line = text.lines().find(|l| l.starts_with("replay ")).unwrap_or("").to_string();
+                        let sig = line.split(": ").nth(1).and_then(|x| x.split(" :: ").next()).unwrap_or("replay-failed").to_string();
+                        Err(Failure::new(sig, line))
+                    }
+                    Err(e) => Err(Failure::new("harness/replay-spawn", e.to_string())),
+                }
+            }
+            _ => prop.replay(&rf.part, &rf.case),
+        };
+        match result {
             Ok(_) => {}
             Err(f) => {
                 if listed.map(|k| k.sig == f.sig).unwrap_or(false) || known.iter().any(|k| k.sig == f.sig) {
